@@ -9,7 +9,8 @@ import (
 
 // Knobs bound the size of a generated specification and select the constructs in scope.
 // Level: 1 apps only; 2 + types/tables; 3 + enums/aliases/unions; 4 + simple endpoints and statements;
-// 5 + REST; 6 + mixins/events/subscriptions; 7 + annotations (every attribute form) and escaped names.
+// 5 + REST; 6 + mixins/events/subscriptions; 7 + annotations (every attribute form) and escaped names;
+// 8 + collector blocks (`.. * <- *:`).
 type Knobs struct {
 	Level     int
 	MaxApps   int
@@ -20,7 +21,7 @@ type Knobs struct {
 }
 
 func DefaultKnobs() Knobs {
-	return Knobs{Level: 7, MaxApps: 4, MaxMember: 5, MaxFields: 5, StmtDepth: 3, MaxStmts: 4}
+	return Knobs{Level: 8, MaxApps: 4, MaxMember: 5, MaxFields: 5, StmtDepth: 3, MaxStmts: 4}
 }
 
 type appInfo struct {
@@ -719,6 +720,9 @@ func Generate(r *common.Rng, k Knobs) *Spec {
 	}
 	for _, p := range blocks {
 		f.Blocks = append(f.Blocks, p.b)
+	}
+	if k.Level >= 8 {
+		x.addCollectors(f.Blocks)
 	}
 	return &Spec{Files: []File{f}}
 }
